@@ -19,6 +19,11 @@ impl Python {
     fn add_common_imports(&mut self, is_optional: bool, requires_custom_translation: bool, is_aliased: bool)
         ensures final(self).cfg() == old(self).cfg(),
     { unimplemented!() }
+    /// stub: import bookkeeping (C12's domain) leaves type_mappings alone
+    #[verifier::external_body]
+    fn add_import(&mut self, module: String, name: String)
+        ensures final(self).cfg() == old(self).cfg(),
+    { unimplemented!() }
 }
 /// python_property_aware_rename: snake case + keyword escape - a pure function of the name
 pub uninterp spec fn py_name(name: Seq<char>) -> Seq<char>;
